@@ -446,9 +446,10 @@ func ParsePacket(flowMessage ProtoProducerMessageIf, data []byte, config PacketL
 			parseConfig.Encapsulated = true
 		}
 
-		nextParser = res.NextParser
+		// count the parser that just ran, so that a parser sees how often it ran before
 		calls[nextParser.ParserIndex] += 1
 		callsLayer[nextParser.LayerIndex] += 1
+		nextParser = res.NextParser
 
 		offset += res.Size
 	}
